@@ -241,6 +241,14 @@ func errsFixed(r *rand.Rand) []*Program {
 			st = append(st, Def("after", Int(1)))
 			ps = append(ps, &Program{Stmts: st, Inputs: host, Meta: map[string]interface{}{"cell": fmt.Sprintf("iife-stmt-%d kind %d", si, kind)}})
 		}
+		// recursion that is not a tail call, through one call site: every active call has its line in the trace
+		for ri, wrap := range []func(c *Node) *Node{
+			func(c *Node) *Node { return Bin("+", Int(1), c) }, func(c *Node) *Node { return Arr(c) }, func(c *Node) *Node { return Cond(Bool(true), c, Int(0)) },
+		} {
+			body := []*Node{If(nil, Bin("==", Id("q"), Int(0)), Blk(append(fail(), Ret(Int(0)))...), nil), Ret(wrap(Call(Id("rec"), Bin("-", Id("q"), Int(1)))))}
+			ps = append(ps, &Program{Stmts: []*Node{Def("g1", Int(2)), Def("rec", Fn([]string{"q"}, false, body...)), Def("before", Int(1)), Def("r", Call(Id("rec"), Int(int64(2+ri)))), Def("after", Int(1))},
+				Inputs: host, Meta: map[string]interface{}{"cell": fmt.Sprintf("non-tail-recursion-%d kind %d", ri, kind)}})
+		}
 		// top-level code of a module
 		modTop := &Program{Stmts: append(append([]*Node{Def("g1", Int(2)), Def("m1", Int(1))}, fail()...), Export(Id("m1")))}
 		ps = append(ps, &Program{Stmts: []*Node{Def("before", Int(1)), Def("c", Import("cfg")), Def("after", Int(1))}, Modules: []Module{{Name: "cfg", Prog: modTop}},
